@@ -39,7 +39,7 @@ def run(c):
     binary = c.go_build(HARNESS)
     if binary:
         gen(c, binary)
-    c.prove("SH.Props.C12", extra_files=["SH/Model/Ingest.lean", "SH/Lemmas/IngestStore.lean", "SH/Gen/C12.lean"])
+    c.prove("SH.Props.C12", extra_files=["SH/Model/Ingest.lean", "SH/Lemmas/IngestStore.lean", "SH/Lemmas/IngestAgg.lean", "SH/Gen/C12.lean"])
     drv = c.driver(DRIVER)
     if binary and drv:
         rc, out = c.go_run(binary, [f"-n={c.n(4000, 40000)}"])
@@ -79,16 +79,28 @@ META = {
              "rejected_invisible). (7) All sequence theorems also for tags-hash sharding with the hash as input (applyAllH_row, "
              "applyAllH_error_status, rejected_invisible_H, effCfg_hash_shard). (8) Boundary of 'not empty': a histogram whose weights are all "
              "0 is accepted; with an absent counter it changes no row, with a counter > 0 it creates an empty row "
-             "(zeroWeight_counter_absent/present). (9) addr2_eq: the second shard's copy goes to the Tail of the row without string top."),
+             "(zeroWeight_counter_absent/present). (9) addr2_eq: the second shard's copy goes to the Tail of the row without string top. "
+             "(10) Every aggregate of every row over every event list: the whole MultiValue read at a user-metric address is the fold, over "
+             "the events in order, of their row updates applied 0/1/2 times (applyEvent_rowMV, applyAll_rowMV, applyAllH_rowMV); projected: "
+             "(ValueSet, ValueMin) and (ValueSet, ValueMax) are the running min/max folded over the values of the accepted events addressed "
+             "to the row (applyAll_row_min/_max, evFn_fields), the sum of squares is old + Σ hits·Σv²w·count/total (applyAll_row_sq), the "
+             "unique set is the old one with the accepted hashes inserted, duplicate-free (applyAll_row_uniq, applyAll_row_uniq_mem), the "
+             "percentile (TDigest) flag is never cleared, never set without percentiles, and after a value update equals old || (pct && "
+             "min ≠ max) (applyAll_row_td, evFn_td_values). (11) Every status row over every event list, warnings and clamped-future "
+             "included: count = old + Σ over events of the status records written to it + the first shard's clamped-future warning "
+             "(applyEvent_status_row, applyAll_status_row, applyAllH_status_row, clampHit_code; the second shard never writes that warning: "
+             "resolveTs_second_not_clamped)."),
     "note": ("Trusted: Lean kernel; the correspondence on generated cases (quick 4000, thorough 40000 cases of 1-6 events, all sharding "
              "strategies); the harness' emulation of worker.fillTime/fillMetricMeta; helper functions treated as inputs (tag lookup, string "
              "normalisation, raw parsers, mapping cache, xxh3 of the key). Exact arithmetic only (no float rounding). Store-level theorems "
-             "read rows through getMV (first match, as storeUpd writes) and assume non-negative counts in the initial store (true of the empty "
-             "store and preserved by every event). Still partial: min/max/sum-of-squares/unique-set/TDigest flag are modelled and compared by "
-             "the correspondence but have no lifted theorem; warning and clamped-future status rows are counted only per event "
-             "(accepted_status_store), not summed over sequences. Observation outside C12 and C10 as stated (replay: "
-             "`verif-c12 -mode=shard2demo` on the real code; Lean: addr2_eq): with ShardFixedKey2 the first shard's call strips the "
-             "string-top tag from the shared key, so the second shard files the same event under the Tail row — the copy still "
-             "contributes the right count and sum to the right metric, only under a different row."),
+             "read rows through getMV (first match, as storeUpd writes); the count/sum/status-count theorems assume non-negative counts in "
+             "the initial store (true of the empty store, preserved by every event), the whole-row fold and min/max/squares/unique/flag "
+             "theorems need no such assumption. Remaining partial: TDigest contents (only the flag), host tags, string-top capacity/"
+             "resampling and bucket slots are outside the model. Observation outside C12 and C10 as stated: with ShardFixedKey2 the first "
+             "shard's call strips the string-top tag from the shared key, so the second shard files the event under the Tail row (right "
+             "metric, count and sum; wrong row) and never gets the clamped-future warning. Replay on the real code: `verif-c12 "
+             "-mode=shard2demo`; Lean: addr2_eq, resolveTs_second_not_clamped. A maintainer fix is PROPOSED (not applied) in "
+             "fixes/C12-shard2-stop-tag.proposal.diff/.msg (copy the key for the second shard; demo test included; agent tests pass); "
+             "model and check describe the current code."),
     "design_ref": "DESIGN.md §6 C12",
 }
